@@ -116,7 +116,7 @@ func (ex *Exec) checkLinearizable() {
 		switch res {
 		case porcupine.Illegal:
 			sort.SliceStable(rs, func(i, j int) bool { return rs[i].Call < rs[j].Call })
-			ex.res.Violate("C04", "not-linearizable", "history of key %s is not linearizable: %s", k, histString(rs))
+			ex.violate("C04", "not-linearizable", "history of key %s is not linearizable: %s", k, histString(rs))
 		case porcupine.Unknown:
 			if ex.res.Extra == nil {
 				ex.res.Extra = map[string]any{}
